@@ -52,6 +52,20 @@ pub struct FCrash {
     pub signo: u32,
     pub code: i32,
     pub addr: u64,
+    /// the thread id stored inside the crash context itself (filled in by the crashed process;
+    /// the dump is attributed by the caller's blamed thread, not by this field)
+    #[serde(default)]
+    pub ctx_tid: CtxTid,
+}
+
+#[derive(Debug, Clone, Default, PartialEq, Eq, Hash, Serialize, Deserialize)]
+pub enum CtxTid {
+    #[default]
+    Blamed,
+    Zero,
+    /// the id of another thread of the target
+    Other(u16),
+    Arbitrary(i32),
 }
 
 #[derive(Debug, Clone, PartialEq, Eq, Hash, Serialize, Deserialize)]
@@ -256,7 +270,13 @@ pub fn run_case(c: &FCase) -> Result<Obs, RunErr> {
             }
             None => 0x3000_0000_1000u64 as i64,
         };
-        CrashContext2 { gregs, fp: fpstate_of_fx(&sentinel_fx(cr.seed)), signo: cr.signo, code: cr.code, addr: cr.addr, tid: blamed }
+        let ctx_tid = match cr.ctx_tid {
+            CtxTid::Blamed => blamed,
+            CtxTid::Zero => 0,
+            CtxTid::Other(k) => candidates[pick(k, candidates.len())],
+            CtxTid::Arbitrary(v) => v,
+        };
+        CrashContext2 { gregs, fp: fpstate_of_fx(&sentinel_fx(cr.seed)), signo: cr.signo, code: cr.code, addr: cr.addr, tid: ctx_tid }
     });
     let n_threads = candidates.len() as u64 + case_threads.iter().filter(|(_, _, k)| *k == K_NULLSP).count() as u64;
     let n_listed = candidates.len() as u64; // null-sp threads are dropped before the thread list is written
@@ -376,8 +396,9 @@ pub fn case_strategy(max_threads: usize, min_threads: usize) -> impl Strategy<Va
                 any::<u32>(),
                 any::<i32>(),
                 any::<u64>(),
+                prop_oneof![4 => Just(CtxTid::Blamed), 1 => Just(CtxTid::Zero), 2 => any::<u16>().prop_map(CtxTid::Other), 1 => any::<i32>().prop_map(CtxTid::Arbitrary)],
             )
-                .prop_map(|(rip, rsp_page, rsp_inpage, seed, signo, code, addr)| FCrash { rip, rsp_page, rsp_inpage, seed, signo, code, addr }),
+                .prop_map(|(rip, rsp_page, rsp_inpage, seed, signo, code, addr, ctx_tid)| FCrash { rip, rsp_page, rsp_inpage, seed, signo, code, addr, ctx_tid }),
         ),
         prop_oneof![3 => Just(LimitG::None), 3 => (-3i32..4).prop_map(LimitG::Around), 2 => Just(LimitG::Tiny), 1 => Just(LimitG::Huge)],
         proptest::collection::vec((prop_oneof![3 => 0u16..4, 1 => 0u16..300], any::<bool>()), 0..4),
